@@ -177,19 +177,15 @@ def build_unit_text(unit, src):
         out.append(f.csig + ';\n')
     info = {}
     for f in unit.fns:
-        ex = src.function(f.header, f.scope)
         inits = ''
         if getattr(f, 'ctor', False):
             # R17: mem-initializer list -> one statement per initializer, in textual order, ahead of the constructor body
-            mi = re.fullmatch(r'\s*:\s*(.*\S)\s*', ex['between'], re.S)
-            if not mi:
-                raise L.ExtractionBreak('%s: constructor without a mem-initializer list: %r' % (f.name, ex['between']))
-            for it in L.split_top(mi.group(1), ','):
-                if not re.fullmatch(r'\s*\w+\s*\(.*\)\s*', it, re.S):
-                    raise L.ExtractionBreak('%s: mem-initializer not of the form member(args): %r' % (f.name, it))
-                inits += ' VX_INIT__' + it.strip() + ';'
-        elif not re.fullmatch(f.between_ok, ex['between'], re.S):
-            raise L.ExtractionBreak('%s: unexpected text between header and body: %r' % (f.name, ex['between']))
+            ex = src.ctor(f.header, f.scope)
+            inits = ''.join(' VX_INIT__%s(%s);' % it for it in ex['inits'])
+        else:
+            ex = src.function(f.header, f.scope)
+            if not re.fullmatch(f.between_ok, ex['between'], re.S):
+                raise L.ExtractionBreak('%s: unexpected text between header and body: %r' % (f.name, ex['between']))
         body = ex['body']
         if inits:
             body = '{' + inits + body[1:]
